@@ -381,12 +381,13 @@ Proof.
   intros k P st cs a b ans Hk Hrep HP Hgk Hpr.
   pose proof (fun gs ge => range_walk_api st cs gs ge ans Hrep Hgk) as HW.
   destruct k; try discriminate; unfold do_range, ideal_range.
-  all: destruct (key_eq _ a b);
-    [ destruct (transform _ a) as [gk tk] eqn:Et; cbn [fst];
+  all: destruct (lex_cmp (fst (transform _ a)) (fst (transform _ b)));
+    [ destruct (transform _ a) as [gk tk] eqn:Et; cbn [fst snd];
       destruct (probe_cons _ _ _ _ Hpr HP) as [Hb Hc];
       rewrite (search_refines st cs gk tk Hrep Hb Hc);
       destruct (find_gk gk cs); reflexivity
-    | destruct (key_gt _ a b); apply seq_bridge; apply HW ].
+    | apply seq_bridge; apply HW
+    | apply seq_bridge; apply HW ].
 Qed.
 
 (* ================================================================== *)
